@@ -245,6 +245,22 @@ func (w *World) copySourceFits(f *ssa.Function, c *ssa.Call) bool {
 	if allShared {
 		return true
 	}
+	// a local whose last writer, on every path, is a rounding call with that local as its destination
+	// (under a context with the caller's limits — the contexts themselves are C07.R5's business)
+	if al, isAlloc := basePtr(src).(*ssa.Alloc); isAlloc {
+		ws := w.lastWritersAt(f, al, c)
+		if len(ws) > 0 {
+			all := true
+			for _, t := range ws {
+				if t != "(*Context).round" && t != "(Rounder).Round" && t != "(*Context).Round" {
+					all = false
+				}
+			}
+			if all {
+				return true
+			}
+		}
+	}
 	sp, isParam := src.(*ssa.Parameter)
 	if !isParam {
 		return false
